@@ -71,7 +71,7 @@ def run(tier, replay):
             vlib.run_shards(chk, [cmd], timeout=3600)
         chk.add(1, 2)
         return chk.finish()
-    total = 1600000 if tier == "quick" else 20000000
+    total = 1600000 if tier == "quick" else 100000000
     shards = vlib.NCPU
     per = (total + shards - 1) // shards
 
